@@ -230,7 +230,8 @@ def class_to_cim(cd):
 
 
 # --------------------------------------------------------------- generator
-def gen_model(seed, nns=None, allow_cr=False, with_methods=True):
+def gen_model(seed, nns=None, allow_cr=False, with_methods=True,
+              max_inst=7):
     """Returns a JSON-able model description."""
     r = stream(seed, 'model')
     nns = nns or r.choice([1, 1, 2, 2, 3])
@@ -300,7 +301,7 @@ def gen_model(seed, nns=None, allow_cr=False, with_methods=True):
     for ns in namespaces:
         insts = []
         plain = [c for c in classes if not c['assoc']]
-        for _ in range(r.randint(1, 7)):
+        for _ in range(r.randint(1, max_inst)):
             c = r.choice(plain)
             ap = all_props(cmap, c['name'])
             props = {}
@@ -417,7 +418,8 @@ def restore(blob, **conn_kw):
 def fresh_conn(model, **conn_kw):
     """A new FakedWBEMConnection holding the model; built once per process
     per model seed, afterwards restored from a pickle snapshot."""
-    key = (model['seed'], len(model['classes']))
+    key = (model['seed'], len(model['classes']),
+           sum(len(v) for v in model['instances'].values()))
     blob = _BLOBS.get(key)
     if blob is None:
         c = build(model)
